@@ -120,10 +120,42 @@ class Grammar(object):
         for node in ast.walk(pm.classes['Parser']):
             if isinstance(node, ast.Call) and \
                     ast.unparse(node.func).endswith('yacc.yacc'):
+                starred = False
                 for kw in node.keywords:
                     if kw.arg == 'start' and isinstance(
                             kw.value, ast.Constant):
                         return kw.value.value
+                    if kw.arg is None:
+                        # **kwargs: a dict literal bound to a local name
+                        starred = True
+                        d = kw.value
+                        if isinstance(d, ast.Name):
+                            for n2 in ast.walk(pm.classes['Parser']):
+                                if isinstance(n2, ast.Assign) and len(
+                                        n2.targets) == 1 and isinstance(
+                                        n2.targets[0], ast.Name) and \
+                                        n2.targets[0].id == d.id:
+                                    d = n2.value
+                                    break
+                        if isinstance(d, ast.Dict):
+                            for k, v in zip(d.keys, d.values):
+                                if isinstance(k, ast.Constant) and \
+                                        k.value == 'start' and isinstance(
+                                        v, ast.Constant):
+                                    return v.value
+                        elif isinstance(d, ast.Call) and ast.unparse(
+                                d.func) == 'dict':
+                            for k2 in d.keywords:
+                                if k2.arg == 'start' and isinstance(
+                                        k2.value, ast.Constant):
+                                    return k2.value.value
+                if starred:
+                    raise AnalysisError(
+                        'the start symbol handed to ply.yacc.yacc cannot '
+                        'be read from Parser.__init__ (keyword arguments '
+                        'passed through an object the analysis does not '
+                        'follow)')
+        # ply's default: the left-hand side of the first rule
         return self.productions[0].lhs
 
     # ------------------------------------------------------------------
